@@ -1,7 +1,6 @@
 package directive
 
 import (
-	stdBytes "bytes"
 	"fmt"
 
 	"github.com/jsightapi/jsight-schema-go-library/bytes"
@@ -11,10 +10,19 @@ import (
 )
 
 func unescapeParameter(b bytes.Bytes) bytes.Bytes {
-	c := b.Unquote()
-	if len(c) != 0 && len(c) != len(b) {
-		c = stdBytes.ReplaceAll(c, []byte(`\"`), []byte(`"`))
-		c = stdBytes.ReplaceAll(c, []byte(`\\`), []byte(`\`))
+	if !b.InQuotes() {
+		return b
+	}
+
+	// The scanner lets only \" and \\ through, so every backslash escapes the
+	// byte which follows it. One pass: unescaping the result again would turn
+	// an escaped backslash followed by a quote or a backslash into an escape.
+	c := make(bytes.Bytes, 0, len(b)-2)
+	for i := 1; i < len(b)-1; i++ {
+		if b[i] == '\\' && i+1 < len(b)-1 {
+			i++
+		}
+		c = append(c, b[i])
 	}
 	return c
 }
